@@ -1549,7 +1549,8 @@ class Dosini(object):
             entry = output[name]
 
             for key in ['description', 'type', 'data-in']:
-                if key in entry:
+                # VV: an optional key that the [Output] section did not have is None, it has no text to write
+                if key in entry and entry[key] is not None:
                     cfg.set(name, key, str(entry[key]))
 
             if 'stages' in entry:
